@@ -10,9 +10,11 @@ import (
 // ProbeResult says whether the outcome of a case depends on what was executed before it in the same
 // process.
 type ProbeResult struct {
-	Cases        int    `json:"cases"`
-	StateCarried bool   `json:"state_carried"`
-	Detail       string `json:"detail,omitempty"`
+	Cases        int  `json:"cases"`
+	StateCarried bool `json:"state_carried"`
+	// Nondeterministic: the same case gave two outcomes in two processes of its own (not a matter of state).
+	Nondeterministic bool   `json:"nondeterministic,omitempty"`
+	Detail           string `json:"detail,omitempty"`
 }
 
 func sameOutcome(a, b Outcome) bool {
@@ -60,6 +62,11 @@ func Probe(h Hooks, seed uint64, multiOK bool) *ProbeResult {
 	for i, c := range cases {
 		alone := executeIsolated(c, nil)
 		if !sameOutcome(here[i], alone) {
+			if again := executeIsolated(c, nil); !sameOutcome(alone, again) {
+				// two lone executions disagree: the tool's outcome depends on something other than what ran before
+				res.Nondeterministic = true
+				continue
+			}
 			res.StateCarried = true
 			res.Detail = fmt.Sprintf("case %d of the probe sequence (input %q, read plan %s): after %d earlier executions in the same process run returned %q with %d report(s) and %d byte(s) of output; in a process of its own %q, %d, %d",
 				i, clip(string(c.Input)), PlanString(c), i, here[i].RetErr, here[i].Sink, len(here[i].Stdout), alone.RetErr, alone.Sink, len(alone.Stdout))
